@@ -26,8 +26,34 @@ INSTALLED = {"stubs": [], "models": [], "contracts": []}
 SEMANTIC_FORMATS = {"%02x%02x", "%02x"}
 
 
+# Our overrides form an extra patch layer ON TOP of CrossHair's own registrations (added/removed together with
+# them by wrapping core.Patched). A call of the patched entity made from inside one of our override functions
+# resolves to the next lower layer (CrossHair's model, then the real builtin) -- PatchingModule's own mechanism.
+EXTRA_LAYER = {}
+
+
 def _override(entity, impl):
-    _PATCH_REGISTRATIONS[entity] = impl
+    EXTRA_LAYER[entity] = impl
+
+
+def _install_layer():
+    import crosshair.core as core
+    if getattr(core.Patched, "_verif_layered", False):
+        return
+    orig_enter, orig_exit = core.Patched.__enter__, core.Patched.__exit__
+
+    def __enter__(self):
+        r = orig_enter(self)
+        core.COMPOSITE_TRACER.patching_module.add(EXTRA_LAYER)
+        return r
+
+    def __exit__(self, *a):
+        core.COMPOSITE_TRACER.patching_module.pop(EXTRA_LAYER)
+        return orig_exit(self, *a)
+
+    core.Patched.__enter__ = __enter__
+    core.Patched.__exit__ = __exit__
+    core.Patched._verif_layered = True
 
 
 def _is_symbolic(v, depth=0):
@@ -73,8 +99,6 @@ def _install_logging_stubs():
     INSTALLED["stubs"].append("pymodbus.utilities.hexlify_packets -> '' (log text only)")
 
 
-_orig_percent = _bl._str_percent_format
-_orig_format = _bl._str_format
 
 
 def _percent(self, other):
@@ -83,12 +107,12 @@ def _percent(self, other):
         sym = _is_symbolic_nt(other)
     if concrete_fmt and sym:
         if self in SEMANTIC_FORMATS:
-            return _hex2_format(self, other)
+            r = _hex2_format(self, other)
+            if r is not None:
+                return r
+            return str.__mod__(self, other)
         return "<fmt>"
-    other = deep_realize(other)
-    self = realize(self)
-    with NoTracing():
-        return str.__mod__(self, other)
+    return str.__mod__(self, other)      # next layer: CrossHair's model (realises, then the builtin)
 
 
 def _format(self, *a, **kw):
@@ -97,7 +121,7 @@ def _format(self, *a, **kw):
         sym = _is_symbolic_nt(a) or _is_symbolic_nt(kw)
     if concrete_fmt and sym:
         return "<fmt>"
-    return _orig_format(self, *a, **kw)
+    return str.format(self, *a, **kw)
 
 
 _HEXDIGITS = "0123456789abcdef"
@@ -123,8 +147,7 @@ def _hex2_format(fmt, other):
     out = ""
     for v in other:
         if not (0 <= v <= 255):
-            with NoTracing():
-                return str.__mod__(fmt, deep_realize(other))
+            return None
         with NoTracing():
             from crosshair.libimpl.builtinslib import SymbolicInt
             if isinstance(v, SymbolicInt):
@@ -156,6 +179,7 @@ def _install_format_stubs():
 def install(contracts=()):
     if INSTALLED.get("done"):
         return INSTALLED
+    _install_layer()
     _install_logging_stubs()
     _install_format_stubs()
     from engine import chmodels
